@@ -136,6 +136,40 @@ public:
 // x86::RACFGBuilder - OnInst
 // ==========================
 
+// Returns a mask of GP registers written by `X86RAPass::emit_pre_call()` right before the call instruction.
+static RegMask pre_call_written_gp_regs(const InvokeNode* invoke_node, bool is_64bit) noexcept {
+  const FuncDetail& fd = invoke_node->detail();
+  RegMask mask = 0;
+
+  if (is_64bit && fd.has_var_args()) {
+    switch (fd.call_conv().id()) {
+      case CallConvId::kX64SystemV:
+        mask |= Support::bit_mask<RegMask>(Gp::kIdAx);
+        break;
+
+      case CallConvId::kX64Windows:
+        for (uint32_t arg_index = 0; arg_index < fd.arg_count(); arg_index++) {
+          const FuncValuePack& arg_pack = fd.arg_pack(arg_index);
+          for (uint32_t value_index = 0; value_index < Globals::kMaxValuePack; value_index++) {
+            const FuncValue& arg = arg_pack[value_index];
+            if (!arg) {
+              break;
+            }
+            if (arg.is_reg() && RegUtils::group_of(arg.reg_type()) == RegGroup::kVec && arg_index < 4u) {
+              mask |= Support::bit_mask<RegMask>(fd.call_conv().passed_order(RegGroup::kGp)[arg_index]);
+            }
+          }
+        }
+        break;
+
+      default:
+        break;
+    }
+  }
+
+  return mask;
+}
+
 Error RACFGBuilder::on_instruction(InstNode* inst, InstControlFlow& cf, RAInstBuilder& ib) noexcept {
   InstId inst_id = inst->inst_id();
   InstRWInfo rw_info;
@@ -191,6 +225,13 @@ Error RACFGBuilder::on_instruction(InstNode* inst, InstControlFlow& cf, RAInstBu
       else {
         // Not EVEX, restrict everything to [0-15] registers.
         instruction_allowed_regs = 0xFFFFu;
+      }
+
+      // A variadic call in 64-bit mode gets `mov eax, <n>` (SysV) or `movq <gp>, <xmm>` (Win64) inserted right before the
+      // call instruction by `emit_pre_call()`, after register allocation - the call target (register or the base/index of
+      // a memory operand) must not be allocated to a register these instructions write.
+      if (inst->is_invoke()) {
+        instruction_allowed_regs &= ~pre_call_written_gp_regs(inst->as<InvokeNode>(), _is_64bit);
       }
 
       for (size_t i = 0u; i < operands.size(); i++) {
@@ -379,6 +420,10 @@ Error RACFGBuilder::on_instruction(InstNode* inst, InstControlFlow& cf, RAInstBu
               RATiedFlags flags = ra_mem_base_rw_flags(op_rw_info.op_flags());
               RegGroup group = work_reg->group();
               RegMask in_out_regs = _pass._available_regs[group];
+
+              if (inst->is_invoke()) {
+                in_out_regs &= instruction_allowed_regs;
+              }
 
               uint32_t use_id = Reg::kIdBad;
               uint32_t out_id = Reg::kIdBad;
